@@ -8,6 +8,9 @@ CHECKS = {}
 def add(i, level, engine, technique, text, note, ref):
     CHECKS[i] = (level, engine, technique, text, note, ref)
 
+add("C05", MC, "vsched", "stateless model checking of the real code under a controlled scheduler: all interleavings up to a preemption bound and a timer-deviation bound (iterative context bounding + happens-before fingerprint pruning)",
+    "Every interleaving (P<=2,T<=1 quick; P<=3,T<=2 thorough; completed bounds per scenario in the evidence) of 3-4 holders competing for capacity 1-3 of syncx.Limit, syncx.TimeoutLimit (virtual timeout racing Return), syncx.Pool (incl. max-age expiry on the virtual clock), threading.TaskRunner, rest MaxConnsHandler and the mr/fx worker pools, with panics placed in holders; oracles: in-region gauge <= n, refusals only while n permits are out, exact admission counts when holders are parked on a gate, full capacity restored afterwards, over-return reported.",
+    "Bounded to the listed thread counts, capacities and deviation bounds; sequential consistency; the shim's model of channels (incl. parking as a visible transition), sync and timers (DESIGN 2.3, 2.9).", "DESIGN.md#c05")
 add("C07", MC, "vsched", "stateless model checking of the real code under a controlled scheduler: all interleavings up to a preemption bound (iterative context bounding + happens-before fingerprint pruning)",
     "Every interleaving (preemption bound 3 quick / 5 thorough, completed bound reported per scenario) of 2-4 threads issuing 1-2 SingleFlight.Do/DoEx, LockedCalls.Do and ResourceManager.GetResource calls on colliding keys, executed on go-zero's own core/syncx sources rewritten onto the scheduler shim; an interval checker over the totally ordered call/exec log decides per-key exclusion, no-stale-result, fresh-flag, exactly-once and single-creation.",
     "Bounded to the listed thread/call counts and preemption bound; sequential consistency; the shim's model of sync.Mutex/RWMutex/WaitGroup (see DESIGN 2.3, 2.9).", "DESIGN.md#c07")
